@@ -139,10 +139,15 @@ def cmpOpt : Option Value → Option Value → Ordering
   | some _, Option.none => .gt
   | some a, some b => cmp a b
 
-/-- `Value::from_float` -/
+/-- `Value::from_float`: an integer only when the double is exactly that integer (no
+fractional part, inside the i64 range); every other double — non-finite ones included — stays
+a float -/
 def fromFloat (f : F64) : Value :=
-  let rounded := F64.toI64 f
-  if F64.lt (F64.abs (F64.sub f (F64.floor f))) F64.epsilon then int rounded else float f
+  match f with
+  | .fin s m e =>
+    let t := F64.truncInt s m e
+    if !F64.fractNonzero f && F64.i64Min ≤ t && t ≤ F64.i64Max then int t else float f
+  | _ => float f
 
 /-! ### Rust's `str::parse` for i64 / f64 / bool -/
 
@@ -292,27 +297,31 @@ def asI32 (i : Int) : Int :=
   let m := i.emod 4294967296
   if m ≥ 2147483648 then m - 4294967296 else m
 
+/-- checked i64 arithmetic: the exact integer while it fits, the float result beyond -/
+def intOrFloat (exact : Int) (asFloat : F64) : Value :=
+  if inI64 exact then int exact else fromFloat asFloat
+
 def add : Value → Value → Outcome Value
   | date l, dur r => mkDate "data.rs:178 DateTime + Duration" (l + r)
   | dur l, date r => mkDate "data.rs:179 DateTime + Duration" (r + l)
   | dur l, dur r => mkDur "data.rs:180 Duration + Duration" (l + r)
-  | float l, float r => .ok (float (F64.add l r))
-  | int l, int r => mkInt "data.rs:182 i64 add" (l + r)
+  | float l, float r => .ok (fromFloat (F64.add l r))
+  | int l, int r => .ok (intOrFloat (l + r) (F64.add (F64.ofInt l) (F64.ofInt r)))
   | l, r => binaryOp F64.add l r
 
 def sub : Value → Value → Outcome Value
   | date l, dur r => mkDate "data.rs:193 DateTime - Duration" (l - r)
   | date l, date r => mkDur "data.rs:194 DateTime - DateTime" (l - r)
   | dur l, dur r => mkDur "data.rs:195 Duration - Duration" (l - r)
-  | float l, float r => .ok (float (F64.sub l r))
-  | int l, int r => mkInt "data.rs:197 i64 sub" (l - r)
+  | float l, float r => .ok (fromFloat (F64.sub l r))
+  | int l, int r => .ok (intOrFloat (l - r) (F64.sub (F64.ofInt l) (F64.ofInt r)))
   | l, r => binaryOp F64.sub l r
 
 def mul : Value → Value → Outcome Value
   | dur l, int r => mkDur "data.rs:208 Duration * i32" (l * asI32 r)
   | int l, dur r => mkDur "data.rs:209 Duration * i32" (r * asI32 l)
-  | float l, float r => .ok (float (F64.mul l r))
-  | int l, int r => mkInt "data.rs:211 i64 mul" (l * r)
+  | float l, float r => .ok (fromFloat (F64.mul l r))
+  | int l, int r => .ok (intOrFloat (l * r) (F64.mul (F64.ofInt l) (F64.ofInt r)))
   | l, r => binaryOp F64.mul l r
 
 def div : Value → Value → Outcome Value
